@@ -10,7 +10,8 @@ import random
 import re
 
 HOSTILE = "<b>&\"'"
-STR_TAGS = {"": "", "a": "a", "p": "p", "b": "b", "c": "c", "h": HOSTILE, "h2": "]]>&amp;<!--", "sp": " ", "u": "é", "u0": "u"}
+STR_TAGS = {"": "", "a": "a", "p": "p", "b": "b", "c": "c", "h": HOSTILE, "h2": "]]>&amp;<!--", "sp": " ", "u": "é", "u0": "u",
+            "q": "it's", "pp": "a|b", "qq": "'"}
 TAGNAMES = ["div", "span", "p", "ul", "li", "em", "b", "i", "td", "tr"]
 
 
@@ -246,7 +247,10 @@ def expr_text(e, ctx=None):
                 "genexp": "list(%s for _z in (1,))[0]", "cond": "(%s if True else None)", "dictitem": "{'k': %s}['k']",
                 "setcomp": "list({_z: %s for _z in (1,)}.values())[0]", "paren": "(%s)",
                 "ltcond": "(%s if 1 < 2 else None)", "ampand": "(1 & 3 and %s)",
-                "nlparen": "(%s\n       )", "dsp": "(%s  if  True  else  None)"}[e["w"]] % inner
+                "nlparen": "(%s\n       )", "dsp": "(%s  if  True  else  None)",
+                # parameters / comprehension variables named like template variables: local to the expression
+                "compx": "[x for x in (%s,)][0]", "genx": "list(x for x in (%s,))[0]", "lamdef": "(lambda y=%s: y)()",
+                "nestlam": "(lambda x: (lambda y, x=x: x)(x))(%s)", "lamkw": "(lambda *x, **y: x[0])(%s)"}[e["w"]] % inner
     if x == "attr":
         return "%s.%s" % (expr_text(e["e"]), e["a"])
     if x == "skeys":
@@ -282,8 +286,9 @@ def const_text(v):
         return str(v["n"])
     if t == "str":
         s = STR_TAGS.get(v["s"], v["s"])
-        assert re.match(r"^[A-Za-z0-9 ]*$", s)
-        return "'" + s + "'"
+        assert re.match(r"^[A-Za-z0-9 '|]*$", s)
+        # a quote inside the literal is backslash-escaped, a pipe character is written \| (the documented escape)
+        return "'" + s.replace("'", "\\'").replace("|", "\\|") + "'"
     if t == "seq":
         return "[" + ", ".join(const_text(x) for x in v["vs"]) + "]"
     raise ValueError(v)
